@@ -8,6 +8,8 @@
 // cases.ndjson: first line {"k":"meta","q":[[x,y]..],"prev":[0/1..],"noz":-1000}, then
 //   {"id":..,"k":"poly","v":[[x,y]..],"exp":[codes],["q":[..]],["sel":1],"lvl":"full"|"lite"}
 //   {"id":..,"k":"set","e":[{"v":..,"zmin":..,"zmax":..}..],"var":[{"z":..,"nested":0/1,"a":[codes],"sel":[codes]}..],"lvl":..}
+//   {"id":..,"k":"hull","src":[[x,y]..],"srcsel":[0/1 per lattice point of meta.lat],"exp":[codes],"lvl":..}
+//     (meta then also has "lat":[[x,y]..] and "masks":[{"name":..,"active":[0/1 per query point]}..])
 // Coordinates are the integers of the specification (vertices even, query points any integer).
 // Every case is run on exact-truth-preserving images: an integer affine map followed by a scaling,
 // applied by ONE function to vertices and query points (so that "level with a vertex" stays exact),
@@ -15,6 +17,8 @@
 //
 // out.ndjson: one line per case (per variant for sets):
 //   {"id":..,"var":n,"n":<number of (image, api) runs>,"obs":[{"s":"0101..","cnt":..,"tags":[..]}]}
+// (hull cases: "obs" = hull polygon + selection of a target Db without previous selection, "obsmask"[m] = selection
+//  of a target Db whose previous selection is meta.masks[m])
 // "s" has one character per query point: 0/1 = answer, '.' = skipped (boundary), 'x' = inconsistent
 // read-back (selection column vs isActive).  Equal strings are merged (cnt) with a few tags
 // "image|order|api" kept for the replay.
@@ -70,6 +74,7 @@ static const int NIMG = sizeof(IMAGES) / sizeof(IMAGES[0]);
 // PolyElem decides that a vertex list is already closed.  Closed input goes to the ordinary channel,
 // open input to a channel of its own ("obstiny").
 static const Image TINY = {"s2^-20", 1, 0, 0, 1, 0, 0, 1.0 / 1048576.0, 1, false};
+static const Image TINYHULL = {"s2^-12", 1, 0, 0, 1, 0, 0, 1.0 / 4096.0, 1, false};
 
 static inline double mapx(const Image& m, long X, long Y) { return (double)(m.a * X + m.b * Y + m.tx) * m.mul / m.div; }
 static inline double mapy(const Image& m, long X, long Y) { return (double)(m.c * X + m.d * Y + m.ty) * m.mul / m.div; }
@@ -77,7 +82,7 @@ static inline double mapy(const Image& m, long X, long Y) { return (double)(m.c 
 // ---------------------------------------------------------------- crash containment
 static int OUTFD = -1;
 static long CURID = -1;
-static void onCrash(int sig)
+static void onCrash(int sig)   // also SIGALRM: a case that does not terminate
 {
   char buf[128];
   int n = snprintf(buf, sizeof buf, "\n{\"id\":%ld,\"crash\":%d}\n", CURID, sig);
@@ -367,6 +372,143 @@ static void runSet(const Value& c, const std::vector<Pt>& q0, const std::vector<
   }
 }
 
+// ---------------------------------------------------------------- selections by convex hull
+struct Mask { std::string name; std::vector<int> active; };
+
+// order variants of the source samples (the hull must not depend on the order of the samples)
+static std::vector<int> sourceOrder(int n, int variant)
+{
+  std::vector<int> r(n);
+  for (int i = 0; i < n; i++) r[i] = i;
+  switch (variant % 4)
+  {
+    case 1: for (int i = 0; i < n; i++) r[i] = n - 1 - i; break;
+    case 2: for (int i = 0; i < n; i++) r[i] = (i + n / 2) % n; break;
+    case 3: { int k = 0; for (int i = 0; i < n; i += 2) r[k++] = i; for (int i = 1; i < n; i += 2) r[k++] = i; break; }
+    default: break;
+  }
+  return r;
+}
+
+static void runHull(const Value& c, const std::vector<Pt>& q0, const std::vector<Pt>& lat,
+                    const std::vector<Mask>& masks, FILE* out)
+{
+  long id = (long)c.at("id").d();
+  std::vector<Pt> src = points(c.at("src"));
+  std::vector<int> srcsel = c.at("srcsel").ints();
+  std::vector<Pt> q = c.has("q") ? points(c.at("q")) : q0;
+  std::vector<int> exp = c.at("exp").ints();
+  int nq = (int)q.size();
+  std::vector<char> skip(nq);
+  for (int i = 0; i < nq; i++) skip[i] = (exp[i] == 2);
+  std::string lvl = c.gets("lvl", "lite");
+  std::vector<int> imgs = imagesFor(lvl, id);
+  Obs obs;
+  std::vector<Obs> obsMask(masks.size());
+  int cnt = 0;
+  for (int ii : imgs)
+  {
+    const Image& im = IMAGES[ii];
+    for (int sv = 0; sv < 2; sv++)      // 0: the source Db holds the set; 1: the whole lattice, the set = its active samples
+    {
+      int variant = (int)(id + ii + sv);
+      std::vector<Pt> pts;
+      std::vector<int> act;
+      if (sv == 0)
+      {
+        std::vector<int> ord = sourceOrder((int)src.size(), variant);
+        for (int k : ord) pts.push_back(src[k]);
+      }
+      else
+      {
+        if ((int)lat.size() != (int)srcsel.size()) continue;
+        std::vector<int> ord = sourceOrder((int)lat.size(), variant);
+        for (int k : ord) { pts.push_back(lat[k]); act.push_back(srcsel[k]); }
+      }
+      char tagb[96];
+      snprintf(tagb, sizeof tagb, "%s|%s,order%d|", im.name, sv ? "src=lattice+selection" : "src=set", variant % 4);
+      std::string tag(tagb);
+      Db* db1 = makeDb(im, pts, false, 0., sv ? &act : nullptr);
+      // the hull polygon itself
+      Polygons* P = Polygons::createFromDb(db1, 0., false);
+      std::string s1(nq, '.');
+      if (P == nullptr) s1 = std::string(nq, 'N');
+      else
+      {
+        VectorDouble c2(2), c3(3);
+        for (int i = 0; i < nq; i++)
+        {
+          if (skip[i]) continue;
+          c2[0] = mapx(im, q[i].x, q[i].y); c2[1] = mapy(im, q[i].x, q[i].y);
+          c3[0] = c2[0]; c3[1] = c2[1]; c3[2] = TEST;
+          s1[i] = ((i % 2) ? P->inside(c2, false) : P->inside(c3, (i % 4) == 0)) ? '1' : '0';
+        }
+      }
+      obs.add(s1, tag + "Polygons::createFromDb.inside");
+      delete P;
+      // selection of the samples of a target Db made of the query points
+      for (int m = -1; m < (int)masks.size(); m++)
+      {
+        if (lvl != "full" && m >= 0 && ((cnt + m) % 3) != 0) continue;
+        Db* db2 = makeDb(im, q, (cnt % 2) == 1, TEST, m >= 0 ? &masks[m].active : nullptr);
+        bool viaDb = ((cnt + m) % 2) == 0;
+        int rc = viaDb ? db2->addSelectionFromDbByConvexHull(db1, 0., false) : db_selhull(db1, db2, 0., false);
+        std::string s(nq, '.');
+        if (rc != 0) s = std::string(nq, 'E');
+        else
+        {
+          VectorDouble sel = db2->getSelections();
+          if ((int)sel.size() != nq) s = std::string(nq, 'x');
+          else for (int i = 0; i < nq; i++)
+          {
+            if (skip[i]) continue;
+            bool a = db2->isActive(i);
+            s[i] = (sel[i] == 1. && a) ? '1' : (sel[i] == 0. && !a) ? '0' : 'x';
+          }
+        }
+        std::string t = tag + (viaDb ? "Db::addSelectionFromDbByConvexHull" : "db_selhull") +
+                        (m >= 0 ? "(target with " + masks[m].name + " selection)" : "(target without selection)");
+        if (m < 0) obs.add(s, t); else obsMask[m].add(s, t);
+        delete db2;
+      }
+      delete db1;
+      cnt++;
+    }
+  }
+  // scaling by 2^-12 (exact): the doubled areas of all lattice triangles (<= 16 * 2^-24) fall below the ABSOLUTE
+  // tolerance 1e-6 with which Polygons::_getHullIndices declares three points collinear; channel of its own
+  Obs obsTiny;
+  if (lvl == "full")
+  {
+    Db* db1 = makeDb(TINYHULL, src, false, 0., nullptr);
+    Polygons* P = Polygons::createFromDb(db1, 0., false);
+    std::string s1(nq, '.');
+    if (P == nullptr) s1 = std::string(nq, 'N');
+    else
+    {
+      VectorDouble c2(2);
+      for (int i = 0; i < nq; i++)
+      {
+        if (skip[i]) continue;
+        c2[0] = mapx(TINYHULL, q[i].x, q[i].y); c2[1] = mapy(TINYHULL, q[i].x, q[i].y);
+        s1[i] = P->inside(c2, false) ? '1' : '0';
+      }
+    }
+    obsTiny.add(s1, "s2^-12|src=set|Polygons::createFromDb.inside");
+    delete P;
+    delete db1;
+  }
+  Value o = Value::object();
+  o["id"] = Value(id);
+  o["n"] = Value(obs.n);
+  o["obs"] = obs.json();
+  if (obsTiny.n) o["obstiny"] = obsTiny.json();
+  Value om = Value::array();
+  for (size_t m = 0; m < masks.size(); m++) om.push(obsMask[m].json());
+  o["obsmask"] = om;
+  fprintf(out, "%s\n", vj::dump(o).c_str());
+}
+
 int main(int argc, char** argv)
 {
   if (argc < 3) { fprintf(stderr, "usage: poly_run cases.ndjson out.ndjson [skip ids]\n"); return 2; }
@@ -383,13 +525,15 @@ int main(int argc, char** argv)
   // the library prints on stdout: silence it
   int devnull = open("/dev/null", O_WRONLY);
   if (devnull >= 0) { dup2(devnull, 1); }
-  for (int s : {SIGSEGV, SIGABRT, SIGFPE, SIGBUS, SIGILL}) signal(s, onCrash);
+  for (int s : {SIGSEGV, SIGABRT, SIGFPE, SIGBUS, SIGILL, SIGALRM}) signal(s, onCrash);
 
   std::ifstream f(argv[1]);
   if (!f) { fprintf(stderr, "cannot open %s\n", argv[1]); return 2; }
   std::string line;
   std::vector<Pt> q0;
   std::vector<int> prev;
+  std::vector<Pt> lat;
+  std::vector<Mask> masks;
   int noz = -1000;
   long ncase = 0;
   try
@@ -404,6 +548,12 @@ int main(int argc, char** argv)
         q0 = points(c.at("q"));
         prev = c.has("prev") ? c.at("prev").ints() : std::vector<int>();
         noz = c.geti("noz", -1000);
+        if (c.has("lat")) lat = points(c.at("lat"));
+        if (c.has("masks"))
+        {
+          masks.clear();
+          for (auto& m : c.at("masks").arr) masks.push_back({m.at("name").s(), m.at("active").ints()});
+        }
         continue;
       }
       long id = (long)c.at("id").d();
@@ -411,6 +561,7 @@ int main(int argc, char** argv)
       CURID = id;
       if (k == "poly") runPoly(c, q0, prev, out);
       else if (k == "set") runSet(c, q0, prev, noz, out);
+      else if (k == "hull") { alarm(120); runHull(c, q0, lat, masks, out); alarm(0); }
       else continue;
       fflush(out);
       ncase++;
